@@ -96,6 +96,8 @@ def check_case(o):
     op, A, B = o['op'], o['a'], o['b']
     probs = []
     a, b = mk(A), (mk(B) if B else None)
+    names_a = [r['name'] for r in a.ranges]
+    names_b = [r['name'] for r in b.ranges] if b else []
     try:
         res = apply(op, a, b)
     except InvalidRangeError:
@@ -109,6 +111,31 @@ def check_case(o):
         return probs
     if o['err']:
         probs.append(('no-error', 'operands on different sheets joined by :'))
+        return probs
+    # the operator leaves its operands as they were: same areas, same values (read only
+    # now - after the operation - so that nothing was cached before it)
+    for label, rg, ar, nb in (('left', a, A, names_a), ('right', b, B, names_b)):
+        if rg is None or not ar or rg is res:
+            continue
+        try:
+            if [r['name'] for r in rg.ranges] != nb:
+                probs.append(('operand-changed', {'operand': label, 'areas_before': nb,
+                                                  'areas_after': [r['name'] for r in rg.ranges]}))
+            elif len(ar) == 1:
+                have_ = np.asarray(rg.value, object).tolist()
+                if have_ != block(ar[0]):
+                    probs.append(('operand-changed', {'operand': label, 'area': nb[0],
+                                                      'value_before': block(ar[0]), 'value_after': have_}))
+            else:
+                want_ = sorted(content(*c) for c in cells_of(rg.ranges))
+                if sorted(flat(rg.value)) != want_:
+                    probs.append(('operand-changed', {'operand': label, 'areas': nb,
+                                                      'values_before': want_, 'values_after': sorted(flat(rg.value))}))
+        except BaseException as ex:  # noqa
+            if isinstance(ex, (KeyboardInterrupt, SystemExit)):
+                raise
+            probs.append(('operand-changed', {'operand': label, 'reading_it_raises': type(ex).__name__}))
+    if probs:
         return probs
     got = cells_of(res.ranges)
     exp = set((c[0], c[1], c[2]) for c in o['cells'])
